@@ -230,3 +230,83 @@ Proof.
   split; [exact hx_wf|split; [exact hx_hwf|split; [exact hx_calls|split; [exact t_FLT_trans|split; [exact t_FLT_ne|split; [exact t_FL4|]]]]]].
   vm_compute. repeat split.
 Qed.
+
+(* ===== counts_small discharged: the length of the history instead =====
+   (proofs/EquivLenProofs.v)  n_observe ops = the number of calls  metric[.labels(..)].observe(x)  in the history.
+   After ANY history from freshly constructed metrics every non-cumulative bucket count of every histogram cell of the
+   in-memory registry, and their sum (= the cumulative +Inf bucket = _count), is at most n_observe ops (no domain
+   restriction on the calls is needed for this: remove()/clear() included). *)
+From V Require Import proofs.EquivLenProofs.
+Section C12len.
+  Variable F : Type.
+  Variables fzero fone finf : F.
+  Variable fadd : F -> F -> F.
+  Variable fneg : F -> F.
+  Variables flt fle feqb : F -> F -> bool.
+  Variable of_Z : Z -> res F.
+  Variable zlef : Z -> F -> bool.
+  Variable parse_le : str -> F.
+  Variable fmt_le : F -> str.
+  Hypothesis FL1 : forall v, feq F feqb v (fadd fzero v).
+  Hypothesis FLT_zero : flt fzero fzero = false.
+  Hypothesis FLT_trans : forall a b c, flt a b = true -> flt b c = true -> flt a c = true.
+  Hypothesis FLT_ne : forall a b, flt a b = true -> feqb b a = false.
+  Hypothesis FL4 : forall a b, a + b < 2 ^ 53 ->
+    fadd (fcount F fzero fone fadd a) (fcount F fzero fone fadd b) = fcount F fzero fone fadd (a + b).
+
+  Notation MEM metas fams ops := (mem_run F fzero fadd fneg flt fle of_Z zlef metas (mem_init F fams) ops).
+  Notation MP metas pid fams ops :=
+    (mp_run F fzero fone fadd fneg flt fle feqb of_Z zlef fmt_le metas pid (mp_init F fzero fmt_le metas pid fams) ops).
+  Notation COLLECT_MP d := (collect_mp F fzero fadd flt feqb parse_le fmt_le d).
+
+  Theorem C12_counts_bounded_by_observes : forall metas (fams : mregistry F) ops,
+    (forall fam, In fam fams -> fresh_fam F fzero fam) ->
+    forall f fam, nth_error (m_reg F (MEM metas fams ops)) f = Some fam ->
+      forall kc, In kc (kids F fam) ->
+        total (hc F (snd kc)) <= n_observe F ops /\ (forall c, In c (hc F (snd kc)) -> c <= n_observe F ops).
+  Proof. exact (counts_bounded_by_observes F fzero fadd fneg flt fle of_Z zlef). Qed.
+
+  Theorem C12_observes_le_length : forall ops : list (F * mcall F), n_observe F ops <= N.of_nat (length ops).
+  Proof. exact (n_observe_le_length F). Qed.
+
+  (* C12_equiv with  `fewer than 2^53 observe() calls`  in place of counts_small *)
+  Theorem C12_equiv_observes : forall metas pid fams ops,
+    wf_reg F fzero fmt_le metas fams ->
+    (forall fam0, In fam0 fams -> f_kind fam0 = KHistogram -> hwf F fzero flt fle parse_le fmt_le fam0) ->
+    ~ In Multiproc.US pid -> Forall (call_ok F fzero flt) ops ->
+    n_observe F ops < 2 ^ 53 ->
+    forall f fam me, nth_error (m_reg F (MEM metas fams ops)) f = Some fam -> nth_error metas f = Some me ->
+      sim F feqb (norm_mem F fzero fone fadd fle fmt_le me (m_log F (MEM metas fams ops)) f fam)
+                 (norm_mp F (f_kind fam) me (mp_family F (f_name fam) (COLLECT_MP (p_fs F (MP metas pid fams ops))))).
+  Proof. exact (equiv_all_observes F fzero fone fadd fneg flt fle feqb of_Z zlef parse_le fmt_le FL1 FLT_zero FLT_trans FLT_ne FL4). Qed.
+
+  (* ... and with the length of the history *)
+  Theorem C12_equiv_hist_len : forall metas pid fams ops,
+    wf_reg F fzero fmt_le metas fams ->
+    (forall fam0, In fam0 fams -> f_kind fam0 = KHistogram -> hwf F fzero flt fle parse_le fmt_le fam0) ->
+    ~ In Multiproc.US pid -> Forall (call_ok F fzero flt) ops ->
+    N.of_nat (length ops) < 2 ^ 53 ->
+    forall f fam me, nth_error (m_reg F (MEM metas fams ops)) f = Some fam -> nth_error metas f = Some me ->
+      sim F feqb (norm_mem F fzero fone fadd fle fmt_le me (m_log F (MEM metas fams ops)) f fam)
+                 (norm_mp F (f_kind fam) me (mp_family F (f_name fam) (COLLECT_MP (p_fs F (MP metas pid fams ops))))).
+  Proof. exact (equiv_all_hist_len F fzero fone fadd fneg flt fle feqb of_Z zlef parse_le fmt_le FL1 FLT_zero FLT_trans FLT_ne FL4). Qed.
+End C12len.
+
+Print Assumptions C12_counts_bounded_by_observes.
+Print Assumptions C12_observes_le_length.
+Print Assumptions C12_equiv_observes.
+Print Assumptions C12_equiv_hist_len.
+
+(* non-vacuity: the toy histogram history above has 4 observe() calls among its 5 calls; both bounds are met, and the
+   largest count cell of the final state (child a: buckets 0, 1, 2 -> total 3) is within the bound and not 0 *)
+Example C12_equiv_hist_len_nonvacuous :
+  n_observe Z hx_ops = 4 /\ N.of_nat (length hx_ops) = 5 /\ N.of_nat (length hx_ops) < 2 ^ 53
+  /\ (forall fam, In fam hx_fams -> fresh_fam Z 0%Z fam)
+  /\ map (fun kc => total (hc Z (snd kc)))
+         (flat_map (kids Z) (m_reg Z (mem_run Z 0%Z Z.add Z.opp Z.ltb Z.leb (fun z => Ok z) Z.leb hx_metas (mem_init Z hx_fams) hx_ops)))
+     = [3; 1; 0].
+Proof.
+  split; [reflexivity|split; [reflexivity|split; [reflexivity|split]]].
+  - intros fam [<-|[<-|[]]]; split; reflexivity.
+  - vm_compute. reflexivity.
+Qed.
